@@ -163,11 +163,21 @@ async fn load_case(ctx: &Ctx<'_>, out: &mut Out, site: &str, alg: &str, k: usize
             final_root_idx = Some(0);
         }
         "root-new" => {
-            shipped = simple_root(1, consistent, (vec![zk], 1), (vec![tk], 1), (vec![sk], 1), (vec![gk], 1), msgs.next(), &[zk]);
             let mut r2 = simple_root(2, consistent, under.clone(), (vec![tk], 1), (vec![sk], 1), (vec![gk], 1), msgs.next(), &[]);
             fix_table(&mut r2);
-            r2.sigs = vec![ASig::valid(zk)];
-            r2.sigs.extend(sigs.clone());
+            if list.len() % 2 == 0 {
+                // the root keys change between the two versions
+                shipped = simple_root(1, consistent, (vec![zk], 1), (vec![tk], 1), (vec![sk], 1), (vec![gk], 1), msgs.next(), &[zk]);
+                r2.sigs = vec![ASig::valid(zk)];
+                r2.sigs.extend(sigs.clone());
+            } else {
+                // the very same root key list in both versions, only the threshold differs (1 -> thr):
+                // whatever meets the new threshold also meets the old one
+                shipped = simple_root(1, consistent, (ids.clone(), 1), (vec![tk], 1), (vec![sk], 1), (vec![gk], 1), msgs.next(), &[]);
+                fix_table(&mut shipped);
+                shipped.sigs = valid_sigs(&keys.auth[..1]);
+                r2.sigs = sigs.clone();
+            }
             m_site = r2.msg;
             chain.push(r2);
             final_root_idx = Some(0);
